@@ -604,6 +604,27 @@ class Monitor(object):
         finally:
             self.busy -= 1
 
+    def carry_on(self, c):
+        """one further bar (unless a jump-off round is still open) and one attempt by every athlete; returns who was let
+        through and where that leads"""
+        self.busy += 1
+        try:
+            out = []
+            last = c.heights[-1] if c.heights else D('1.00')
+            step = 0.02 if isinstance(last, float) else D('0.02')
+            for m, a in [('set_bar_height', round(last + step, 2) if isinstance(last, float) else last + step)] + \
+                    [('cleared', j.bib) for j in sorted(c.jumpers, key=lambda j: str(j.bib))]:
+                try:
+                    getattr(c, m)(a)
+                    out.append('accepted')
+                except self.RV:
+                    out.append('refused')
+                except Exception as e:
+                    out.append(type(e).__name__)
+            return (out, observable(c))
+        finally:
+            self.busy -= 1
+
     def segments(self, sh):
         segs = []
         cur = []
@@ -672,6 +693,16 @@ class Monitor(object):
                 ctx.violation(sig, dict(case, order=[[(m, b) for m, b in o] for o in order][-2:]), 'accepted', str(e)[:120])
                 return
             ctx.count('eval.interleaving')
+            if observable(d) == want and self.nreplay % 3 == 0:
+                # the same competition, so it goes on the same way: one further bar and one attempt by everybody, applied to a
+                # copy of the original and to the re-ordered rebuild (two interleavings of the same per-athlete sequences)
+                o1, o2 = self.carry_on(clone(comp)), self.carry_on(d)
+                ctx.count('eval.interleaving-carried-on')
+                if o1 != o2:
+                    ctx.violation('interleaving:same-standing-but-goes-on-differently', dict(case, order=[[(m, b) for m, b in o] for o in order][-2:]),
+                                  repr(o1)[:300], repr(o2)[:300])
+                    return
+                continue
             if observable(d) != want:
                 got = observable(d)
                 what = 'state' if got[0] != want[0] else 'places-or-bests' if [x[:2] for x in got[2]] == [x[:2] for x in want[2]] else 'cards'
@@ -952,7 +983,7 @@ class Explorer(object):
         self.states += 1
         return c
 
-    def jumpoff_scenario(self, nj, max_jo=3, scripted=False, passes=False):
+    def jumpoff_scenario(self, nj, max_jo=3, scripted=False, passes=False, probe_outsiders=False):
         """A rule-conforming competition built to end in a jump-off: K athletes with identical cards tie for first, the
         others have the same best with more failures, a lower best or no clearance; then up to max_jo jump-off heights with
         the bar at, next to, below or above the tied best and random single attempts until it is decided."""
@@ -1008,11 +1039,18 @@ class Explorer(object):
             if bar <= 0 or not self.apply(c, 'set_bar_height', bar):
                 break
             parts = list(sh.jo_participants or [])
+            if passes and sh.jo_pass:
+                # after a pass inside the jump-off the rule book no longer says who is in: ask the competition itself
+                parts = [j.bib for j in c.remaining]
             rnd.shuffle(parts)
             if scripted and len(parts) >= 2:
                 # round patterns: all clear / some (not all) fail and are knocked out / all fail / all retire
                 r = rnd.random()
-                if r < 0.35:
+                if passes and r < 0.25:
+                    # one passes the bar the others clear (the code accepts it), then see who is still in
+                    marks = ['passed'] + ['cleared'] * (len(parts) - 1)
+                    rnd.shuffle(marks)
+                elif r < 0.35:
                     marks = ['cleared'] * len(parts)
                 elif r < 0.75:
                     k = rnd.randrange(1, len(parts))
@@ -1024,8 +1062,13 @@ class Explorer(object):
                 for b, m in zip(parts, marks):
                     if c.state != 'jumpoff':
                         break
-                    if not must_refuse(sh, {j.bib: j.place for j in c.jumpers}, m, b):
+                    if not must_refuse(sh, {j.bib: j.place for j in c.jumpers}, m, b) or m == 'passed' or (passes and sh.jo_pass):
                         self.apply(c, m, b)
+                if probe_outsiders and c.state == 'jumpoff':
+                    # everybody who is not (or no longer) in the jump-off tries to jump: refused, and nothing changes
+                    for b in list(sh.bibs):
+                        if b not in (sh.jo_participants or []):
+                            self.apply(c, rnd.choice(['cleared', 'failed', 'passed', 'retired']), b)
                 continue
             for b in parts:
                 if c.state != 'jumpoff':
